@@ -108,6 +108,18 @@ static void pick_name(gen_t *g, uint8_t *nm, size_t *nl)
 static void walk(gen_t *g, binson_parser *p, const uint8_t *doc, size_t size, char root, bool hostile, int maxcalls)
 {
     track_t t; memset(&t, 0, sizeof t); t.fresh = true;
+    if (!hostile && maxcalls < 0) {
+        /* FULL traversal (C03): enter every container, leave it when next says false */
+        long guard = 0;
+        if (!call_op(p, doc, size, root == 'O' ? "io" : "ia", NULL, 0, 0, &t)) return;
+        while (t.sp > 0 && guard++ < 4000) {
+            if (call_op(p, doc, size, "n", NULL, 0, 0, &t)) {
+                if (t.on == BINSON_TYPE_OBJECT) { if (!call_op(p, doc, size, "io", NULL, 0, 0, &t)) return; }
+                else if (t.on == BINSON_TYPE_ARRAY) { if (!call_op(p, doc, size, "ia", NULL, 0, 0, &t)) return; }
+            } else if (!call_op(p, doc, size, t.stk[t.sp-1] == 'O' ? "lo" : "la", NULL, 0, 0, &t)) return;
+        }
+        return;
+    }
     static const char *ALL[] = {"n", "ne", "io", "ia", "lo", "la", "f", "fe", "raw", "tw", "gn", "v", "rs"};
     for (int i = 0; i < maxcalls; i++) {
         const char *op = NULL; static uint8_t nm[NAMEMAX + 8]; size_t nl = 0; int ty = 0;
@@ -163,7 +175,12 @@ int main(int argc, char **argv)
         int maxd = MAXDS[rng_below(&r, 7)];
         int kind = !strcmp(mode, "valid") ? 0 : !strcmp(mode, "mutate") ? 1 : !strcmp(mode, "hostile") ? 2 : (int) rng_below(&r, 3);
         g.budget = 3 + (int) rng_below(&r, big ? 40 : 25);
-        if (rng_chance(&r, 1, 12)) gen_deep(&x, root, (int) (rng_chance(&r, 1, 2) ? maxd + (int) rng_below(&r, 3) - 1 : 254 + (int) rng_below(&r, 3)), rng_chance(&r, 1, 2));
+        if (d < 10) {      /* the nesting limits, every run: 254..257 objects / arrays under max_depth 255, both roots */
+            static const int DD[] = {255, 256, 257, 256, 255, 256, 254, 256, 257, 255};
+            maxd = 255; root = (d & 1) ? 'A' : 'O'; kind = d < 8 ? 0 : 2;
+            gen_deep(&x, root, DD[d], (d % 4) >= 2);
+        }
+        else if (rng_chance(&r, 1, 12)) gen_deep(&x, root, (int) (rng_chance(&r, 1, 2) ? maxd + (int) rng_below(&r, 3) - 1 : 254 + (int) rng_below(&r, 3)), rng_chance(&r, 1, 2));
         else gen_doc(&g, &x, root, maxd > 12 ? 12 : maxd + 1);
         int valid_gen = 1;
         if (kind == 1 || (kind == 2 && rng_chance(&r, 1, 2))) { mutate(&r, &x); valid_gen = 0; }
@@ -180,7 +197,7 @@ int main(int argc, char **argv)
         /* every document is verified first (C02 on every random / mutated document); a successful
          * verify leaves a fresh parser, so the walk below is unaffected */
         { track_t t0; memset(&t0, 0, sizeof t0); t0.fresh = true; call_op(p, doc, x.n, "v", NULL, 0, 0, &t0); }
-        walk(&g, p, doc, x.n, root, kind == 2, 4 + (int) rng_below(&r, 60));
+        walk(&g, p, doc, x.n, root, kind == 2, d < 10 ? 8 : (kind != 2 && rng_chance(&r, 1, 3)) ? -1 : 4 + (int) rng_below(&r, 60));
         if (rng_chance(&r, 1, 3)) {           /* second pass on the same object after reset/verify (C12) */
             track_t t; memset(&t, 0, sizeof t); t.fresh = true;
             call_op(p, doc, x.n, rng_chance(&r, 1, 2) ? "v" : "rs", NULL, 0, 0, &t);
